@@ -17,8 +17,8 @@ Part 2  the providers.  State = base pointer + layout map + view map; `Base/Layo
         template after it (or any member of its set) has been executed; `text/template` does not.
         A request may be followed by the caller executing the object it got (`exec`), which
         marks the *cache entry* when the provider handed out the cached object itself.
-        `Variant` selects between the code as it is and the two planned repairs
-        (hand out clones of cached base/layout; key the view cache by the pair of names).
+        `Variant` selects between the code as it is and its two earlier, defective revisions
+        (cached base/layout objects handed out themselves; view cache keyed by a joined string).
 Part 3  the WalkFS order over a flat, insertion-ordered file list (memfs keeps directory
         entries in creation order).
 Part 4  concurrency: a transition system in which the cache-map read and the two halves of the
@@ -127,9 +127,12 @@ def Tmpl.new : Tmpl := { defs := TSet.empty, executed := false }
 def clone (k : Kind) (t : Tmpl) : Option Tmpl :=
   if k = Kind.html ∧ t.executed = true then none else some { defs := t.defs, executed := false }
 
-/-- The code as it is: both flags `false`.
-`cloneOut`: repair of defect 22b — the html provider hands out clones of its cached base/layout.
-`pairKey`: repair of the key collision — the view cache is keyed by the pair (layout, view). -/
+/-- Which revision of the providers is modelled.  The code as it is in /repo: both flags `true`.
+`cloneOut = false`: before commit 0187fed the html provider handed out its cached base/layout
+objects themselves (defect 22b); `true`: it hands out clones.
+`pairKey = false`: before commit 7d60dbb the view cache was keyed by the joined string
+`layout + ":" + view`; `true`: by the pair.  The old variants are kept because the disproofs
+`cache_transparent_false_html` / `_false_colon` are about them. -/
 structure Variant where
   cloneOut : Bool
   pairKey : Bool
@@ -139,7 +142,7 @@ abbrev Key := Name × Name
 
 def colon : Byte := 58
 
-/-- `key = layoutName + ":" + viewName` (a Go string), or the pair itself after the repair -/
+/-- `viewKey{layoutName, viewName}`; in the old variant the Go string `layoutName + ":" + viewName` -/
 def mkKey (V : Variant) (l v : Name) : Key :=
   if V.pairKey then (l, v) else (l ++ colon :: v, [])
 
@@ -167,7 +170,7 @@ def defaultLayout : Name := [100, 101, 102, 97, 117, 108, 116]  -- "default"
 
 def normL (l : Name) : Name := if l = [] then defaultLayout else l
 
-/-- html, repaired variant: a cached object is handed out as a clone -/
+/-- html: a cached object is handed out as a clone (as itself in the old variant) -/
 def handOut (V : Variant) (t : Tmpl) (r : Ref) : Option (Tmpl × Ref) :=
   if V.cloneOut then
     match clone Kind.html t with
